@@ -12,20 +12,41 @@ m = types.ModuleType('cherab'); m.__path__ = [tree + '/cherab']; sys.modules['ch
 '''
 
 
+def _built_from():
+    """sha1 of every .pyx/.pxd the compiled modules of /repo were built from (recorded in /verif/replaylib/built_from.json when the
+    binaries were last rebuilt in place; modification times are useless: `git checkout` and restores refresh them)."""
+    p = os.path.join(os.path.dirname(os.path.abspath(__file__)), 'built_from.json')
+    try:
+        with open(p) as f:
+            return json.load(f)
+    except (OSError, ValueError):
+        return {}
+
+
 def stale_sources(tree):
-    """.pyx/.pxd files newer than the compiled module beside them (a native replay would not run the edited code)."""
+    """.pyx/.pxd files that differ from what the compiled modules of /repo were built from, or that have no compiled module beside them
+    (a native replay against `tree` would then not run the code under check -> a scratch build is made)."""
+    import hashlib
+    built = _built_from()
     stale = []
     for root, _, files in os.walk(os.path.join(tree, 'cherab')):
         for f in files:
-            if f.endswith('.pyx'):
-                src = os.path.join(root, f)
-                stem = f[:-4]
-                sos = [x for x in files if x.startswith(stem + '.') and x.endswith('.so')]
-                if not sos or os.path.getmtime(os.path.join(root, sos[0])) < os.path.getmtime(src):
-                    stale.append(src)
-                pxd = src[:-4] + '.pxd'
-                if sos and os.path.exists(pxd) and os.path.getmtime(os.path.join(root, sos[0])) < os.path.getmtime(pxd):
-                    stale.append(pxd)
+            if not f.endswith('.pyx'):
+                continue
+            src = os.path.join(root, f)
+            stem = f[:-4]
+            sos = [x for x in files if x.startswith(stem + '.') and x.endswith('.so')]
+            if not sos:
+                stale.append(src)
+                continue
+            for c in [src] + ([src[:-4] + '.pxd'] if os.path.exists(src[:-4] + '.pxd') else []):
+                rel = os.path.relpath(c, tree)
+                try:
+                    h = hashlib.sha1(open(c, 'rb').read()).hexdigest()
+                except OSError:
+                    h = None
+                if built.get(rel) != h:
+                    stale.append(c)
     return stale
 
 
